@@ -93,3 +93,66 @@ Proof.
   pose proof (end_of_word d Hd more [] w0 0%Z idx Hmore Hidx) as E.
   cbn [app length Nat.add] in E. rewrite Z.sub_0_r in E. exact E.
 Qed.
+
+(* ---- general form: words separated by non-empty runs of delimiters ---- *)
+Definition delim_run (d : bytes) : Prop := d <> [] /\ forallb is_sel_delim d = true.
+
+Definition tail_runs (rest : list (bytes * bytes)) : bytes :=
+  concat (map (fun p => fst p ++ snd p) rest).
+
+Lemma run_true : forall d rest i idx cur ws, forallb is_sel_delim d = true -> (cur =? idx)%Z = false ->
+  sel_loop (d ++ rest) i idx cur ws true false = sel_loop rest (i + length d) idx cur ws true false.
+Proof.
+  induction d as [|c d IH]; intros rest i idx cur ws H Hne.
+  - cbn [app length]. rewrite Nat.add_0_r. reflexivity.
+  - cbn [forallb] in H. apply andb_true_iff in H as [Hc Hd].
+    cbn [app sel_loop andb negb orb]. rewrite Hc, Hne. cbn [orb]. rewrite IH by assumption.
+    cbn [length]. f_equal. lia.
+Qed.
+
+Lemma end_of_word_runs : forall rest pre wk k idx,
+  Forall (fun p => delim_run (fst p) /\ plain_word (snd p)) rest -> (k <= idx)%Z ->
+  extract (pre ++ wk ++ tail_runs rest)
+          (sel_loop (tail_runs rest) (length pre + length wk) idx k (length pre) false false)
+  = nth (Z.to_nat (idx - k)) (wk :: map snd rest) [].
+Proof.
+  induction rest as [|[d w'] rest' IH]; intros pre wk k idx Hr Hk.
+  - cbn [tail_runs map concat sel_loop]. destruct (k =? idx)%Z eqn:E.
+    + apply Z.eqb_eq in E. subst. rewrite Z.sub_diag. cbn [Z.to_nat nth extract].
+      rewrite app_nil_r, skipn_app, skipn_all, Nat.sub_diag. reflexivity.
+    + apply Z.eqb_neq in E. cbn [extract]. cbn [Nat.sub firstn].
+      destruct (Z.to_nat (idx - k)) as [|[|n]] eqn:En; [lia|reflexivity|reflexivity].
+  - inversion Hr as [|? ? [[Hdn Hd] Hw'] Hrest]; subst. cbn [fst snd] in *.
+    change (tail_runs ((d, w') :: rest')) with ((d ++ w') ++ tail_runs rest'). rewrite <- app_assoc.
+    destruct d as [|c d]; [congruence|]. cbn [forallb] in Hd. apply andb_true_iff in Hd as [Hc Hd].
+    cbn [app sel_loop andb negb orb]. rewrite Hc. cbn [orb].
+    destruct (k =? idx)%Z eqn:E.
+    + apply Z.eqb_eq in E. subst. rewrite Z.sub_diag. cbn [Z.to_nat nth extract map]. apply extract_word.
+    + rewrite run_true by assumption. rewrite start_word by exact Hw'.
+      apply Z.eqb_neq in E.
+      specialize (IH (pre ++ wk ++ c :: d) w' (k + 1)%Z idx Hrest ltac:(lia)).
+      replace (length (pre ++ wk ++ c :: d)) with (S (length pre + length wk) + length d)%nat in IH
+        by (rewrite !app_length; cbn [length]; lia).
+      replace (pre ++ wk ++ c :: d ++ w' ++ tail_runs rest') with ((pre ++ wk ++ c :: d) ++ w' ++ tail_runs rest')
+        by (rewrite <- !app_assoc; reflexivity).
+      rewrite IH. cbn [map].
+      replace (Z.to_nat (idx - k)) with (S (Z.to_nat (idx - (k + 1)))) by lia. reflexivity.
+Qed.
+
+(* select on words separated by arbitrary non-empty runs of delimiters (space, tab, newline, NUL):
+   the idx-th word, and the empty string beyond the last *)
+Theorem select_runs_law_proof : forall w0 rest idx,
+  plain_word w0 -> Forall (fun p => delim_run (fst p) /\ plain_word (snd p)) rest -> (0 <= idx)%Z ->
+  select_field (w0 ++ tail_runs rest) idx = nth (Z.to_nat idx) (w0 :: map snd rest) [].
+Proof.
+  intros w0 rest idx [Hn0 Hp0] Hr Hidx.
+  rewrite select_field_extract. rewrite scan_word by exact Hp0.
+  pose proof (end_of_word_runs rest [] w0 0%Z idx Hr Hidx) as E.
+  cbn [app length Nat.add] in E. rewrite Z.sub_0_r in E. exact E.
+Qed.
+
+(* a leading delimiter makes field 0 empty (the words then count from 1) *)
+Theorem select_leading_delim_proof : forall c s, is_sel_delim c = true -> select_field (c :: s) 0 = [].
+Proof.
+  intros c s Hc. unfold select_field. cbn [sel_loop andb negb orb]. rewrite Hc. reflexivity.
+Qed.
